@@ -81,7 +81,7 @@ pub fn gen_mut_op(rng: &mut Rng, spec: &WorldSpec, alphabet: usize) -> OpSpec {
         4 => Op::Create { path: newp(rng), kind: CreateKind::Fifo(0o600) },
         5 | 6 => Op::CreateFile {
             path: newp(rng),
-            flags: *rng.pick(&[libc::O_RDWR, libc::O_WRONLY | libc::O_TRUNC, libc::O_RDONLY, libc::O_PATH, libc::O_RDWR | libc::O_EXCL, libc::O_WRONLY | libc::O_APPEND]),
+            flags: libc::O_NONBLOCK | *rng.pick(&[libc::O_RDWR, libc::O_WRONLY | libc::O_TRUNC, libc::O_RDONLY, libc::O_PATH, libc::O_RDWR | libc::O_EXCL, libc::O_WRONLY | libc::O_APPEND]),
             mode: 0o644,
         },
         7 | 8 => Op::MkdirAll { path: if rng.chance(1, 2) { newp(rng) } else { format!("{}/n1/n2", victim(rng)) }, mode: *rng.pick(&[0o755u32, 0o700, 0o1777]) },
